@@ -255,19 +255,20 @@ def calculateNewTrustingPeriod (tp origUb newUb : Nat) : Nat :=
 
 /-! ### the world: several clients of one chain, block time and height -/
 
+/-- clients are identified by their sequence number `N` (client id `07-tendermint-N`) -/
 structure World where
-  clients : FMap String Store
+  clients : FMap Nat Store
   nextSeq : Nat
   now : Int
   self : Height
 deriving Repr, Inhabited
 
-def World.client (w : World) (cid : String) : Store :=
+def World.client (w : World) (cid : Nat) : Store :=
   match w.clients.get cid with
   | some s => s
   | none => Store.empty
 
-def World.put (w : World) (cid : String) (s : Store) : World := { w with clients := w.clients.set cid s }
+def World.put (w : World) (cid : Nat) (s : Store) : World := { w with clients := w.clients.set cid s }
 
 def clientId (n : Nat) : String := "07-tendermint-" ++ toString n
 
@@ -295,14 +296,14 @@ deriving Repr, Inhabited
 
 inductive Op
   | create (cs : ClientState) (c : ConsState)
-  | update (cid : String) (hdr : Header) (valid : Bool)
-  | misbehaviour (cid : String) (m : Misbehaviour) (v1 v2 : Bool)
+  | update (cid : Nat) (hdr : Header) (valid : Bool)
+  | misbehaviour (cid : Nat) (m : Misbehaviour) (v1 v2 : Bool)
   | advance (dt : Nat) (dh : Nat)
-  | upgrade (cid : String) (u : UpgradeReq)
-  | recover (subject substitute : String)
-  | pruneAll (cid : String)
-  | verifyMembership (cid : String) (r : MembershipReq)
-  | verifyNonMembership (cid : String) (r : MembershipReq)
+  | upgrade (cid : Nat) (u : UpgradeReq)
+  | recover (subject substitute : Nat)
+  | pruneAll (cid : Nat)
+  | verifyMembership (cid : Nat) (r : MembershipReq)
+  | verifyNonMembership (cid : Nat) (r : MembershipReq)
 deriving Repr, Inhabited
 
 /-- `ClientState.initialize` -/
@@ -312,7 +313,7 @@ def initClient (cs : ClientState) (c : ConsState) (now : Int) (self : Height) : 
 /-- `Keeper.CreateClient` for client type 07-tendermint (keeper level: writes made before a late error
     stay, as in the Go function; a transaction would discard them) -/
 def createClient (w : World) (cs : ClientState) (c : ConsState) : World × String :=
-  let cid := clientId w.nextSeq
+  let cid := w.nextSeq
   let w1 := { w with nextSeq := w.nextSeq + 1 }
   match cs.validate with
   | some "panic" => (w1, "panic")
@@ -325,35 +326,32 @@ def createClient (w : World) (cs : ClientState) (c : ConsState) : World × Strin
       let w2 := w1.put cid s
       if s.status w.now ≠ .active then (w2, "err:client-not-active") else (w2, "ok")
 
-/-- `Keeper.UpdateClient` with a `*Header` -/
-def updateClient (w : World) (cid : String) (hdr : Header) (valid : Bool) : World × String :=
-  let s := w.client cid
-  if s.status w.now ≠ .active then (w, "err:client-not-active")
+/-- `Keeper.UpdateClient` with a `*Header`, on the client's store -/
+def updateStore (s : Store) (now : Int) (self : Height) (hdr : Header) (valid : Bool) : Store × String :=
+  if s.status now ≠ .active then (s, "err:client-not-active")
   else match s.client with
-    | none => (w, "err:client-not-found")
+    | none => (s, "err:client-not-found")
     | some cs =>
       match verifyHeader s hdr valid with
-      | some e => (w, "err:" ++ e)
+      | some e => (s, "err:" ++ e)
       | none =>
-        if checkHeaderMisbehaviour s hdr then (w.put cid (freeze cs s), "frozen")
-        else match updateState cs s hdr w.now w.self with
-          | none => (w, "panic")
-          | some s' => (w.put cid s', "updated")
+        if checkHeaderMisbehaviour s hdr then (freeze cs s, "frozen")
+        else match updateState cs s hdr now self with
+          | none => (s, "panic")
+          | some s' => (s', "updated")
 
 /-- `MsgUpdateClient` with a `*Misbehaviour`: `ValidateBasic`, then `Keeper.UpdateClient` -/
-def submitMisbehaviour (w : World) (cid : String) (m : Misbehaviour) (v1 v2 : Bool) : World × String :=
-  if !m.validateBasic then (w, "err:basic")
-  else
-    let s := w.client cid
-    if s.status w.now ≠ .active then (w, "err:client-not-active")
-    else match s.client with
-      | none => (w, "err:client-not-found")
-      | some cs =>
-        match verifyMisbehaviour cs s m w.now v1 v2 with
-        | some e => (w, "err:" ++ e)
-        | none =>
-          if checkMisbehaviourMsg m then (w.put cid (freeze cs s), "frozen")
-          else (w, "updated")     -- UpdateState with a Misbehaviour message is a no-op
+def misbehaviourStore (s : Store) (now : Int) (m : Misbehaviour) (v1 v2 : Bool) : Store × String :=
+  if !m.validateBasic then (s, "err:basic")
+  else if s.status now ≠ .active then (s, "err:client-not-active")
+  else match s.client with
+    | none => (s, "err:client-not-found")
+    | some cs =>
+      match verifyMisbehaviour cs s m now v1 v2 with
+      | some e => (s, "err:" ++ e)
+      | none =>
+        if checkMisbehaviourMsg m then (freeze cs s, "frozen")
+        else (s, "updated")     -- UpdateState with a Misbehaviour message is a no-op
 
 /-- `ClientState.VerifyUpgradeAndUpdateState` after the module-level checks -/
 def verifyUpgradeAndUpdateState (cs : ClientState) (s : Store) (u : UpgradeReq) (now : Int) (self : Height) :
@@ -383,19 +381,16 @@ def verifyUpgradeAndUpdateState (cs : ClientState) (s : Store) (u : UpgradeReq) 
           -- consensus state at newClientState.LatestHeight, metadata at tmUpgradeClient.LatestHeight
           ((({ s with client := some newCs }).setCons newCs.latest newCons).setMeta u.newClient.latest self now.toNat, "ok")
 
-/-- `Keeper.UpgradeClient` -/
-def upgradeClient (w : World) (cid : String) (u : UpgradeReq) : World × String :=
-  let s := w.client cid
-  if s.status w.now ≠ .active then (w, "err:client-not-active")
-  else if !u.clientBzOK then (w, "err:invalid-client")
-  else if !u.consBzOK then (w, "err:invalid-consensus")
+/-- `Keeper.UpgradeClient`, on the client's store -/
+def upgradeStore (s : Store) (now : Int) (self : Height) (u : UpgradeReq) : Store × String :=
+  if s.status now ≠ .active then (s, "err:client-not-active")
+  else if !u.clientBzOK then (s, "err:invalid-client")
+  else if !u.consBzOK then (s, "err:invalid-consensus")
   else match s.client with
-    | none => (w, "err:client-not-found")
+    | none => (s, "err:client-not-found")
     | some cs =>
-      if !u.newClient.latest.gt cs.latest then (w, "err:invalid-height")
-      else
-        let (s', r) := verifyUpgradeAndUpdateState cs s u w.now w.self
-        (w.put cid s', r)
+      if !u.newClient.latest.gt cs.latest then (s, "err:invalid-height")
+      else verifyUpgradeAndUpdateState cs s u now self
 
 /-- `ClientState.CheckSubstituteAndUpdateState` (writes made before a late error stay, as in the Go code) -/
 def checkSubstituteAndUpdateState (cs : ClientState) (subj subst : Store) (scs : ClientState) (now : Int) :
@@ -418,21 +413,18 @@ def checkSubstituteAndUpdateState (cs : ClientState) (subj subst : Store) (scs :
           let cs2 := { cs1 with latest := scs.latest, chainId := scs.chainId, trustingPeriod := scs.trustingPeriod }
           ({ s2 with client := some cs2 }, "ok")
 
-/-- `Keeper.RecoverClient` + `LightClientModule.RecoverClient` (both ids are 07-tendermint ids) -/
-def recoverClient (w : World) (subject substitute : String) : World × String :=
-  let sj := w.client subject
-  let sb := w.client substitute
-  if sj.status w.now = .active then (w, "err:invalid-recovery-client")
-  else if sb.status w.now ≠ .active then (w, "err:client-not-active")
-  else if sj.latestHeight.gte sb.latestHeight then (w, "err:invalid-height")
+/-- `Keeper.RecoverClient` + `LightClientModule.RecoverClient` (both ids are 07-tendermint ids):
+    the new subject store, given the subject's and the substitute's stores -/
+def recoverStore (sj sb : Store) (now : Int) : Store × String :=
+  if sj.status now = .active then (sj, "err:invalid-recovery-client")
+  else if sb.status now ≠ .active then (sj, "err:client-not-active")
+  else if sj.latestHeight.gte sb.latestHeight then (sj, "err:invalid-height")
   else match sj.client with
-    | none => (w, "err:client-not-found")
+    | none => (sj, "err:client-not-found")
     | some cs =>
       match sb.client with
-      | none => (w, "err:client-not-found")
-      | some scs =>
-        let (s', r) := checkSubstituteAndUpdateState cs sj sb scs w.now
-        (w.put subject s', r)
+      | none => (sj, "err:client-not-found")
+      | some scs => checkSubstituteAndUpdateState cs sj sb scs now
 
 /-- `verifyDelayPeriodPassed` (64-bit wrap-around of the two sums as in the Go code) -/
 def verifyDelayPeriodPassed (s : Store) (r : MembershipReq) (now : Int) (self : Height) : Option String :=
@@ -456,14 +448,13 @@ def verifyDelayPeriodPassed (s : Store) (r : MembershipReq) (now : Int) (self : 
     else none
 
 /-- `Keeper.VerifyMembership` / `VerifyNonMembership` + `ClientState.verify(Non)Membership` (read-only) -/
-def verifyMembership (w : World) (cid : String) (r : MembershipReq) : String :=
-  let s := w.client cid
-  if s.status w.now ≠ .active then "err:client-not-active"
+def verifyMembershipStore (s : Store) (now : Int) (self : Height) (r : MembershipReq) : String :=
+  if s.status now ≠ .active then "err:client-not-active"
   else match s.client with
     | none => "err:client-not-found"
     | some cs =>
       if cs.latest.lt r.height then "err:invalid-height"
-      else match verifyDelayPeriodPassed s r w.now w.self with
+      else match verifyDelayPeriodPassed s r now self with
         | some e => "err:" ++ e
         | none =>
           if !r.proofParse then "err:proof"
@@ -472,24 +463,26 @@ def verifyMembership (w : World) (cid : String) (r : MembershipReq) : String :=
             | some _ => if r.proofOK then "ok" else "err:proof"
 
 /-- the migration entry point `PruneAllExpiredConsensusStates` on one client -/
-def pruneAllClient (w : World) (cid : String) : World × String :=
-  let s := w.client cid
+def pruneAllStore (s : Store) (now : Int) : Store × String :=
   match s.client with
-  | none => (w, "err:client-not-found")
+  | none => (s, "err:client-not-found")
   | some cs =>
-    let (s', n) := s.pruneAll cs.trustingPeriod w.now
-    (w.put cid s', "ok:" ++ toString n)
+    let r := s.pruneAll cs.trustingPeriod now
+    (r.1, "ok:" ++ toString r.2)
+
+/-- apply a per-client store transformer to client `cid` of the world -/
+def World.onClient (w : World) (cid : Nat) (r : Store × String) : World × String := (w.put cid r.1, r.2)
 
 def step (w : World) : Op → World × String
   | .create cs c => createClient w cs c
-  | .update cid hdr valid => updateClient w cid hdr valid
-  | .misbehaviour cid m v1 v2 => submitMisbehaviour w cid m v1 v2
+  | .update cid hdr valid => w.onClient cid (updateStore (w.client cid) w.now w.self hdr valid)
+  | .misbehaviour cid m v1 v2 => w.onClient cid (misbehaviourStore (w.client cid) w.now m v1 v2)
   | .advance dt dh => ({ w with now := w.now + dt, self := ⟨w.self.rev, w.self.h + UInt64.ofNat dh⟩ }, "ok")
-  | .upgrade cid u => upgradeClient w cid u
-  | .recover a b => recoverClient w a b
-  | .pruneAll cid => pruneAllClient w cid
-  | .verifyMembership cid r => (w, verifyMembership w cid r)
-  | .verifyNonMembership cid r => (w, verifyMembership w cid r)
+  | .upgrade cid u => w.onClient cid (upgradeStore (w.client cid) w.now w.self u)
+  | .recover a b => w.onClient a (recoverStore (w.client a) (w.client b) w.now)
+  | .pruneAll cid => w.onClient cid (pruneAllStore (w.client cid) w.now)
+  | .verifyMembership cid r => (w, verifyMembershipStore (w.client cid) w.now w.self r)
+  | .verifyNonMembership cid r => (w, verifyMembershipStore (w.client cid) w.now w.self r)
 
 def run (w : World) : List Op → World
   | [] => w
